@@ -56,7 +56,7 @@ def cf1d(c, *, bounds=False, as_coords=True, lat_name='lat', lon_name='lon', ydi
 
 
 def cf2d(c, *, bounds=False, as_coords=True, ydim='j', xdim='i', lat_name='lat', lon_name='lon',
-         coord_kind='floatnan', attrs=None, std_names=True, extra=(), first_var=None):
+         coord_kind='floatnan', attrs=None, std_names=True, extra=(), first_var=None, lon_transposed=False):
     ny, nx = sym_size(c, 'ny', 0), sym_size(c, 'nx', 0)
     ds = XDataset(attrs=attrs or {})
     if first_var is not None:
@@ -72,7 +72,10 @@ def cf2d(c, *, bounds=False, as_coords=True, ydim='j', xdim='i', lat_name='lat',
         lat_attrs['bounds'] = 'lat_bnds'
         lon_attrs['bounds'] = 'lon_bnds'
     add_var(ds, lat_name, (ydim, xdim), sym_array(c, 'latv', (ny, nx), coord_kind), lat_attrs, coord=as_coords)
-    add_var(ds, lon_name, (ydim, xdim), sym_array(c, 'lonv', (ny, nx), coord_kind), lon_attrs, coord=as_coords)
+    if lon_transposed:      # longitude stored with its two dimensions the other way round (the code ravels coordinate variables by name)
+        add_var(ds, lon_name, (xdim, ydim), sym_array(c, 'lonv', (nx, ny), coord_kind), lon_attrs, coord=as_coords)
+    else:
+        add_var(ds, lon_name, (ydim, xdim), sym_array(c, 'lonv', (ny, nx), coord_kind), lon_attrs, coord=as_coords)
     if bounds:
         add_var(ds, 'lat_bnds', (ydim, xdim, 'four'), sym_array(c, 'latb', (ny, nx, 4), coord_kind), coord=(bounds == 'coords'))
         add_var(ds, 'lon_bnds', (ydim, xdim, 'four'), sym_array(c, 'lonb', (ny, nx, 4), coord_kind), coord=(bounds == 'coords'))
